@@ -681,3 +681,12 @@ Example general_name_legacy_all_constructed_choices_fail :
   forallb (fun ch => match general_name_enc false ch [48; 0] with Some der => match general_name_dec der with None => true | _ => false end | None => false end) [0; 3; 4; 5] = true /\
   forallb (fun ch => match general_name_enc false ch [97; 98] with Some der => match general_name_dec der with Some (c, d, []) => (c =? ch) | _ => false end | None => false end) [1; 2; 6; 7; 8] = true.
 Proof. split; vm_compute; reflexivity. Qed.
+
+(* wave 5: a validity built with x509_validity_add_days always passes the lifetime bound of x509_validity_check *)
+Theorem validity_add_days_ok : forall nb days na, validity_add_days nb days = Some na ->
+  (nb < na /\ na - nb <= 3653 * 86400 /\ na - nb = days * 86400)%Z.
+Proof.
+  intros nb days na H. unfold validity_add_days in H.
+  destruct ((days <? 1) || (3653 <? days))%Z eqn:E; [discriminate|]. inversion H; subst.
+  apply orb_false_iff in E. destruct E as [E1 E2]. apply Z.ltb_ge in E1. apply Z.ltb_ge in E2. lia.
+Qed.
